@@ -80,11 +80,17 @@ read_name(const args_info *args)
 	while (!user_abort) {
 		const int c = fgetc(args->files_file);
 
-		if (ferror(args->files_file)) {
+		if (c == EOF && ferror(args->files_file)) {
 			// Take care of EINTR since we have established
-			// the signal handlers already.
-			if (errno == EINTR)
+			// the signal handlers already. The error indicator
+			// of the stream has to be cleared. Otherwise the
+			// characters read after this point would be ignored
+			// and, at the end of the input, we would loop here
+			// forever because errno would still be EINTR.
+			if (errno == EINTR) {
+				clearerr(args->files_file);
 				continue;
+			}
 
 			message_error(_("%s: Error reading filenames: %s"),
 				tuklib_mask_nonprint(args->files_name),
